@@ -7,6 +7,16 @@ HOOK_COMMITS = subprocess.run(
     capture_output=True, text=True).stdout.strip().splitlines()
 
 CHECKS = {
+ "C01": dict(
+   technique="stateful property-based testing (proptest action schedules + interpreter) against the real connection tasks and manager on a deterministic swarm runtime; invariants over disk, manager snapshot and wire after every step",
+   text="Up to 3 adversarial scripted peers (corrupt, mis-offset, mis-indexed, truncated, extended, duplicate, stale and unrequested blocks; chokes, disconnects, own requests) over generated geometries; after every barrier every stored file must hash to its name and be a listed piece of the right length, every Have status / Have message / bitfield bit / served block must refer to a piece verified on disk, reservations must be backed by live fetchers; finally an honest peer must complete the download and the real Extractor must reproduce the content.",
+   note="Trusted: swarm runtime (tokio paused clock, AF_UNIX socketpairs posing as TcpStream), reference wire decoder, sha1_smol. Observation granularity = quiescence barrier. KillReq is stepped as kill_peer only.",
+   design="6/C01"),
+ "C02": dict(
+   technique="stateful property-based testing on the deterministic swarm runtime (virtual time, generated segmentation and schedules) + generated real-process end-to-end runs of unmodified Session::run() in private network namespaces",
+   text="Layer 1: generated honest swarms (1-4 peers, piece subsets, unchoke delays, late Haves, keep-alives, unknown messages, chokes, non-essential disconnects, every message possibly cut anywhere) must lead to all pieces Have within 60 virtual minutes, no panic, no honest connection ended with an error, byte-identical extracted files. Layer 2: the unmodified client in a real process with a fake HTTP tracker (optionally failing first) and honest fake peers must write identical output files (healthy ~1 s, deadline 60 s, one confirming re-run).",
+   note="Liveness decided up to the stated horizons. A dropped essential peer is reconnected by the harness (as a tracker would hand it out again). Layer 2 uses real time and unshare(CLONE_NEWNET); a child killed by the watchdog is inconclusive (exit 2), never a violation.",
+   design="6/C02"),
  "C03": dict(
    technique="property-based testing (proptest) + exhaustive enumeration of small layouts; oracle = reference torrent geometry and byte-for-byte file comparison on the real filesystem",
    text="Real Extractor run on harness-written piece files for generated geometries (piece length 1..64 and 16 KiB neighbours, 0-8 files of length 0..3x piece length at nested paths, single/multi-file form) plus complete enumeration of all layouts with piece length 1..4, <=3 files, lengths 0..6. Checks the piece-length partition and that every listed file has exactly its declared bytes, nothing else is created.",
@@ -22,11 +32,41 @@ CHECKS = {
    text="Generated metainfo documents with extra keys before/after info (also out of order), nested dictionaries containing keys spelled info at depth 1-3, rotated key order inside info, leading-zero string lengths, trailing values; whenever rdest accepts, info_hash() must equal SHA-1(doc[span]).",
    note="Exactly one top-level info key, nothing before the top-level dictionary. Trusted: reference parser/writer, sha1_smol.",
    design="6/C05"),
+ "C06": dict(
+   technique="property-based testing (proptest) of the real Connection::recv_frame over socketpairs with generated streams and cut lists, differential against an independent reference stream decoder on every prefix; task-level variant on the swarm runtime; libFuzzer target fz_frames (thorough)",
+   text="Streams of valid messages, unknown ids, wrong fixed lengths, oversized prefixes with filler, garbage, truncation and EOF, cut at generated positions; after every delivered segment the frames returned must equal the reference decoding of the bytes delivered so far (complete-but-undelivered messages and cut-dependence both fail), malformed frames must be rejected within their declared extent, EOF handled, buffer <= 4+65536, no panic. Task level: after such a fault the connection task must report KillReq within the same barrier, not via the keep-alive timer.",
+   note="Id 0x54 messages excluded (ambiguous with the handshake for this decoder). Kernel AF_UNIX delivery is synchronous.",
+   design="6/C06"),
  "C07": dict(
    technique="property-based testing (proptest): differential against an independent BEP3 writer + parse round-trip + bitfield bit-mapping model",
    text="For each of the 11 message kinds with fields over the full u32 range (edge-biased), blocks up to 65527 bytes, arbitrary hashes/ids and bit vectors up to 2000 bits: emitted bytes == reference BEP3 layout, Frame::parse(data++suffix) yields the same message and consumes exactly its length, re-serialisation identity, Handshake::validate accepts exactly its own hash/id, Bitfield to_vec/from_vec/validate agree with the reference for neighbouring piece counts.",
    note="Trusted: reference writer/decoder in harness/src/refmodel/wire.rs.",
    design="6/C07"),
+ "C08": dict(
+   technique="stateful property-based testing (proptest message scripts) against the real connection task and manager on the swarm runtime; oracle over bytes written, KillReq and manager snapshot",
+   text="After a real download of 3 of 4 pieces, a connection (incoming or outgoing) receives generated scripts of handshakes (right/wrong protocol string, hash one bit off/random, expected/foreign id; first, late, repeated, absent) mixed with other traffic and requests: after a foreign handshake nothing more is written, the task ends, the peer is forgotten; own handshake exact, once, first; incoming connections get nothing but keep-alives before a valid handshake; never piece data before a valid handshake.",
+   note="After a malformed protocol string only the 'nothing before a valid handshake' clauses are asserted.",
+   design="6/C08"),
+ "C09": dict(
+   technique="stateful property-based testing (proptest request histories incl. the manager's real choke rotation) on the swarm runtime; oracle matches every Piece frame to a prior request and to the stored bytes",
+   text="Edge-biased (index, begin, length) triples over u32^3 (wrapping sums, exact/one-beyond piece end, 0/16384/16385 lengths, unowned and out-of-range pieces, piece switching) interleaved with interest changes and real rotations that make the client choke/unchoke the peer: every Piece answers exactly one prior request with exactly the stored bytes, <=16 KiB, inside an owned piece, requested while unchoked; no panic.",
+   note="Requests are sent after a barrier so 'the client's last word' is unambiguous.",
+   design="6/C09"),
+ "C10": dict(
+   technique="stateful property-based testing (proptest answer disciplines) on the swarm runtime; oracle = reference tiling per assignment epoch plus an exact acceptance model (one block per barrier)",
+   text="One honest-content peer answers in generated order, duplicates, withholds, chokes/unchokes, announces late, over piece lengths around multiples of 16 KiB and shorter last pieces: every request is a block of the reference tiling, <=16 KiB, never repeated within an assignment, only for advertised pieces; an accepted block is followed by exactly one request while blocks remain; a piece is complete exactly when its last outstanding block has arrived.",
+   note="Block order within a piece is not asserted.",
+   design="6/C10"),
+ "C11": dict(
+   technique="stateful property-based testing (proptest global schedules over suppliers and observers) on the swarm runtime; oracle from the manager's handled completion order (A) and the verified disk state (D)",
+   text="Suppliers complete pieces (some corrupt) while observers handshake, choke and unchoke at generated points, also racing with completions inside one barrier: bitfields satisfy A(at Init) <= bits <= D with zero spare bits, every Have(i) has i verified on disk, Haves for completions after the observer's Init arrive in completion order and none is missing whenever the observer is not choking the client.",
+   note="< 32 completions between barriers (broadcast capacity). D sampled at barriers (monotone).",
+   design="6/C11"),
+ "C12": dict(
+   technique="stateful property-based testing (proptest histories of wire events over up to 5 scripted peers, scenario templates for deep states) through the real connection tasks and manager; invariants after every barrier; committed corpus replay",
+   text="Histories of join/have/choke/unchoke(x2)/interest/deliver/disconnect over 3-16 single-block pieces: Have monotone; every Reserved piece is assigned to a connected, non-choking peer that has been asked for it in its current assignment; requests only for advertised, lacked pieces; no manager/task panic; an honest seeder can always finish the download.",
+   note="Only command sequences real tasks can emit reach the manager (driven through the wire). One-directional reservation invariant, as the statement.",
+   design="6/C12"),
  "C13": dict(
    technique="property-based testing (proptest) on constructed manager states; oracle = validity predicate (rarest-first among candidates) that any tie-break must satisfy",
    text="Generated status vectors (missing count forced to 9/10/11 among others, Reserved mixed in) and 1-6 peers with generated advertised sets; the real choose_piece_index is called 8x per state; the pick must be a candidate of minimal availability, None iff no candidate.",
@@ -62,6 +102,11 @@ CHECKS = {
    text="Model replies with 0-30 entries mixing well-formed and malformed peers, extra keys, rotated order, failure reasons, trailing values: peers() must be exactly the well-formed entries in order, failure reasons must be reported as errors, nothing panics. The tracker fault-sequence half (sub faults) runs unmodified Session::run in a real process.",
    note="Ports > 65535 and non-UTF-8 failure reasons not generated (unspecified).",
    design="6/C19"),
+ "C20": dict(
+   technique="property-based testing (proptest arrival schedules) on the swarm runtime under tokio's paused clock; oracle = small reference reading of the keep-alive statement with an unasserted gap",
+   text="Arrival schedules around the 120 s ticks (119.9/120.1/239/241/359/361 s ...), nine message kinds, lively and silent phases, with or without a reserved piece: closed by last-other-message+360 s with peer state and reservation released; never closed for inactivity while gaps stay < 120 s; exactly one keep-alive per 120 s tick while alive.",
+   note="Virtual time; arrivals within 0.3 s of a client tick are moved (select! coin). Silences of 120-360 s and unknown-id messages unasserted.",
+   design="6/C20"),
 }
 
 def main():
